@@ -432,9 +432,26 @@ func (fv *FuncVC) resolveSourceName(env *SpecEnv, name string) (Val, bool) {
 		} else {
 			var n int
 			fmt.Sscanf(name[2:], "%d", &n)
+			lfr := fr
 			for _, l := range fr.loops {
 				if fv.specOrdinal(fr, l) == n {
 					li = l
+				}
+			}
+			if li == nil && env.fallbackFr != nil {
+				// a `loop n` block evaluated in an extracted helper: $iN of another loop is a loop of the caller
+				for _, l := range env.fallbackFr.loops {
+					if fv.specOrdinal(env.fallbackFr, l) == n {
+						li = l
+						lfr = env.fallbackFr
+					}
+				}
+			}
+			if li != nil && lfr != fr {
+				for _, in := range li.header.Instrs {
+					if phi, ok := in.(*ssa.Phi); ok && phi.Comment == "rangeindex" {
+						return fv.get(lfr, phi), true
+					}
 				}
 			}
 		}
